@@ -143,6 +143,8 @@ def run(ctx):
     rnd.shuffle(corp)
     g = gens.G(rnd, null_rate=0.05, max_depth=2)
     base = corp[:ctx.n(60, 500)] + [("common_parser", s) for s in (g.statement() for _ in range(ctx.n(120, 1500))) if len(s) < 300]
+    # degenerate atoms in every slot a parse action looks into: empty quoted identifiers, empty strings, zero, NULL
+    base += [(d, "select %s, a as %s from %s where %s = 1 group by %s order by %s" % (x, x, x, x, x, x)) for d, xs in (("common_parser", ('""', "``", "''", "0", "null")), ("sqlserver_parser", ("[]", '""')), ("mysql_parser", ("``", "[]")), ("bigquery_parser", ("``",))) for x in xs]
     base += [(d, s) for d in ("mysql_parser", "sqlserver_parser", "bigquery_parser") for s in ("select a, 'x' from t where b in (1, 2) and c = f(d)", "select `a` from t join u on (t.x = u.y) order by 1")]
     nbad = 0
 
@@ -191,6 +193,8 @@ def run(ctx):
             break
     for entry, sql in base:
         st = call(impl.ENTRY[entry], sql)
+        if st[0] not in ("ok", "pe"):
+            judge(entry, sql, False, "statement of the pool, unmutated")     # "arbitrary text ... either returns a tree or raises ParseException" holds for the pool itself too
         if st[0] != "ok" or st[1] is None:
             continue
         vs = ill_formed_variants(sql, rnd)
@@ -206,7 +210,7 @@ def run(ctx):
             m = list(ts)
             op = rnd.choice(["insert", "delete", "duplicate", "splice", "swap"])
             if op == "insert":
-                m.insert(rnd.randrange(len(m) + 1), rnd.choice(["(", ")", "'", '"', "`", ",", "select", "from", "null", "+", "-", "not", ";", "1e400", "0x", ".", "::", "[", "]", "\\", "--", "/*", "x preceding"]))
+                m.insert(rnd.randrange(len(m) + 1), rnd.choice(["(", ")", "'", '"', "`", ",", "select", "from", "null", "+", "-", "not", ";", "1e400", "0x", ".", "::", "[", "]", "\\", "--", "/*", "x preceding", '""', "``", "[]", "''", "()", "0", "null"]))
             elif op == "delete" and m:
                 del m[rnd.randrange(len(m))]
             elif op == "duplicate" and m:
